@@ -61,6 +61,12 @@ def _gen(ctx):
     if ctx.flag("comment_before"):
         toks.append(("comment", "HC0"))
         hidden.append("HC0")
+    visible = ["AAA"]
+    # visible text directly before / after the element (no tag in between): the removal must not take
+    # the neighbouring text nodes with it
+    if ctx.flag("text_directly_before"):
+        toks.append(("text", "TBF"))
+        visible.append("TBF")
     toks.append(("start", outer))
     if form == 0:
         k = ctx.choice("n_items", (1 if stray else n_items) + 1)
@@ -95,10 +101,13 @@ def _gen(ctx):
                 ctx.assume(depth >= 1)
         ctx.assume(depth == 1)
         toks.append(("end", outer))
+    if ctx.flag("text_directly_after"):
+        toks.append(("text", "TAF"))
+        visible.append("TAF")
     if stray and ctx.flag("stray_end_after"):
         toks.append(("end", _sym_tag(ctx, "post_end")))
     toks += [("start", "p"), ("text", "BBB"), ("end", "p")]
-    return toks, ["AAA", "BBB"], hidden, outer
+    return toks, visible + ["BBB"], hidden, outer
 
 
 def _lower(toks, feed_start, feed_end, feed_data, feed_comment):
@@ -200,6 +209,92 @@ def k1(ctx):
     _judge(ctx, text, visible, hidden, toks, outer)
 
 
+# ---------------------------------------------------------------------------------------
+# K2: whole documents through the real feed()/close() of every carrier - what the callback lowering of
+# K1 cannot show: constructs still open at the END of the input (unterminated comment / marked section /
+# removable element), upper-case tag names, attributes on the removable element
+# ---------------------------------------------------------------------------------------
+_TAILS = [
+    ("none", ""), ("comment-open", "<!-- HID9 note"), ("comment-bang", "<!-- HID9 --!"), ("cdata-open", "<![CDATA[ HID9 "),
+    ("pi-open", "<?HID9 "), ("decl-open", "<!HID9 "), ("removable-open", "<%s>HID9"), ("removable-open-tag", "<%s HID9=\"x"),
+]
+_CARRIERS = ("read_html", "read_mhtml", "msg_html_body", "epub_chapter")
+
+
+def _epub_bytes(chapter):
+    import zipfile
+    b = io.BytesIO()
+    with zipfile.ZipFile(b, "w") as z:
+        z.writestr("mimetype", "application/epub+zip")
+        z.writestr("META-INF/container.xml", '<?xml version="1.0"?><container version="1.0" xmlns="urn:oasis:names:tc:'
+                   'opendocument:xmlns:container"><rootfiles><rootfile full-path="OEBPS/content.opf" media-type='
+                   '"application/oebps-package+xml"/></rootfiles></container>')
+        z.writestr("OEBPS/content.opf", '<?xml version="1.0"?><package xmlns="http://www.idpf.org/2007/opf" version="3.0">'
+                   '<metadata xmlns:dc="http://purl.org/dc/elements/1.1/"><dc:title>t</dc:title></metadata><manifest>'
+                   '<item id="c1" href="c1.xhtml" media-type="application/xhtml+xml"/></manifest><spine>'
+                   '<itemref idref="c1"/></spine></package>')
+        z.writestr("OEBPS/c1.xhtml", chapter)
+    return b.getvalue()
+
+
+def _through(carrier, body):
+    """text the public entry point of the carrier extracts from the HTML body"""
+    import sharepoint2text
+    page = "<html><head><title>t</title></head><body>" + body
+    if carrier == "read_html":
+        return next(sharepoint2text.read_html(io.BytesIO(page.encode()), "x.html")).get_full_text()
+    if carrier == "read_mhtml":
+        mh = ("MIME-Version: 1.0\r\nContent-Type: multipart/related; boundary=\"BND\"\r\n\r\n--BND\r\n"
+              "Content-Type: text/html; charset=\"utf-8\"\r\nContent-Transfer-Encoding: 8bit\r\n"
+              "Content-Location: http://x/\r\n\r\n" + page + "\r\n--BND--\r\n")
+        return next(sharepoint2text.read_mhtml(io.BytesIO(mh.encode()), "x.mhtml")).get_full_text()
+    if carrier == "msg_html_body":
+        from sharepoint2text.parsing.extractors.mail.msg_email_extractor import _html_to_text
+        return _html_to_text(page)
+    res = next(sharepoint2text.read_epub(io.BytesIO(_epub_bytes(page)), "x.epub"))
+    return res.get_full_text()
+
+
+def k2_documents(ctx):
+    carrier = _CARRIERS[ctx.params["carrier"]]
+    outer = REMOVABLE[ctx.choice("outer", len(REMOVABLE))]
+    upper = ctx.flag("upper_case_tag")
+    attrs = ctx.flag("attributes")
+    tname = outer.upper() if upper else outer
+    start = "<%s%s>" % (tname, ' data-a="1" src="u"' if attrs else "")
+    hidden = ["HID9"]
+    if outer in VOID_REMOVABLE:
+        elem = start
+    else:
+        elem = start + "HID1" + ("<!--HID2-->" if ctx.flag("inner_comment") else "") + "</%s>" % tname
+        hidden += ["HID1", "HID2"]
+    lead = "VISB " if ctx.flag("text_directly_before") else ""
+    trail = " VISC" if ctx.flag("text_directly_after") else ""
+    tail_name, tail = _TAILS[ctx.choice("end_of_input", len(_TAILS))]
+    if "%s" in tail:
+        t2 = REMOVABLE[ctx.choice("open_removable", len(REMOVABLE))]
+        ctx.assume(t2 not in VOID_REMOVABLE)
+        tail = tail % t2
+    body = "<p>VISA</p><p>" + lead + elem + trail + "</p><p>VISD</p>" + tail
+    visible = ["VISA"] + (["VISB"] if lead else []) + (["VISC"] if trail else []) + ["VISD"]
+    if ctx.perturb == "expect_hidden_visible":
+        visible = visible + ["HID9"]
+    try:
+        text = _through(carrier, body)
+    except Exception as ex:
+        ctx.fail("carrier-raised", carrier=carrier, exc=type(ex).__name__, msg=str(ex)[:80], html=body)
+        return
+    info = dict(carrier=carrier, html=body, output=text[:120], end_of_input=tail_name)
+    for hmark in hidden:
+        ctx.require(hmark not in text, "removed-content-leaks", marker=hmark, **info)
+    pos = -1
+    for v in visible:
+        ctx.require(text.count(v) == 1, "visible-text-lost-or-duplicated", marker=v, count=text.count(v), **info)
+        ctx.require(text.find(v) > pos, "visible-text-reordered", marker=v, **info)
+        pos = text.find(v)
+
+
+
 def _public_replay(kernel, tier, params, inputs):
     """replay of a counterexample: concrete harness run through the real feed(), then the same
     HTML through the public entry points"""
@@ -242,7 +337,7 @@ k = Kernel("K1", "removal state machine of both HTML-family parsers on symbolic 
                      "1,2,3,5,6 - so br/img/embed/param/script/object/... and the outer element's own name are all reachable)"],
            choices=["outer removable element (embed only in its void form)", "number and kind of inner items",
                     "stray end tag (symbolic name, may be the removable's own) before / after the element",
-                    "comment before the element"],
+                    "comment before the element", "visible text directly before / directly after the element"],
            assumptions=["inner unclosed start tags are not script/style (those swallow the rest of the document by "
                         "HTML's own rules)",
                         "reference semantics: the removed element ends at the end tag matching its own name; "
@@ -253,7 +348,18 @@ k = Kernel("K1", "removal state machine of both HTML-family parsers on symbolic 
                     "attribute values containing markup; tag names longer than 6 characters; more than 2 (3) inner items"],
            timeout={"quick": 280, "thorough": 2400})
 k.replayer = _public_replay
-KERNELS = [k]
+k2 = Kernel("K2", "whole documents through feed()/close() of every carrier: constructs left open at the end of the input, "
+                  "upper-case names, attributes, text directly next to the removed element",
+            k2_documents, targets=_targets, strength="structure",
+            parts=lambda tier: [{"carrier": c} for c in range(len(_CARRIERS))],
+            perturb=[("expect_hidden_visible", {"carrier": 0})],
+            choices=["removable element", "upper-case tag name", "attributes on it", "comment inside it",
+                     "visible text directly before / after it",
+                     "end of input: complete, or inside an unterminated comment / <!-- --! / CDATA section / processing "
+                     "instruction / declaration / removable element / start tag of a removable element"],
+            assumptions=["carriers: read_html, read_mhtml (8bit part), msg._html_to_text, read_epub (one chapter)"],
+            outside=["an unterminated construct in the MIDDLE of a document (HTML lets it swallow the rest)"])
+KERNELS = [k, k2]
 
 META = {
     "level_text": "The real start/end/data/comment handlers of both HTML-family parsers are executed on a symbolic "
